@@ -24,7 +24,7 @@ Next == /\ c.kind = "none"
                 /\ len <= n /\ kmsg <= size * b /\ size * b <= 12        \* lookup_table_set asserts f.len() <= n
                 /\ c' = [kind |-> "lut", n |-> n, ext |-> ext, b |-> b, size |-> size, kmsg |-> kmsg, f |-> Seq0(len, LAMBDA i : Entry(i, kmsg)),
                          rots |-> Seq0(2 * D, LAMBDA i : IF i % 2 = 0 THEN i ELSE i - 2 * D)]       \* every index, as k and as k - 2D
-           \/ \E be \in 0..3, ext \in {1, 2, 4}, rank \in {1, 2}, ksi \in 1..3, blwe \in {6, 12}, p \in 1..MaxP, msg \in 0..63, dir \in {"left", "right"}, key \in Keys :
+           \/ \E be \in 0..3, ext \in {1, 2, 4}, rank \in {1, 2}, ksi \in 1..3, blwe \in {3, 4, 6, 12}, p \in 1..MaxP, msg \in 0..63, dir \in {"left", "right"}, key \in Keys :
                 LET ks == KeyShapes[ksi]
                     D == BrN * ext
                     step == D \div Pow(p)
